@@ -1,7 +1,9 @@
 #!/bin/bash
 # Determinism self-test: for each property given (default: all registered in
 # MANIFEST.json), run N seeds in P fresh processes at GOMAXPROCS 1/4/16 and
-# diff the event-log hashes. usage: selftest/determinism.sh [N] [P] [props...]
+# diff the event-log hashes; then, per property, replay fidelity: every run is
+# re-executed from its own recorded tape and must yield the same event-log hash.
+# usage: selftest/determinism.sh [N] [P] [props...]
 set -u
 cd /verif
 export GOFLAGS=-mod=mod GOPROXY=off GOSUMDB=off GOTOOLCHAIN=local GODEBUG=asyncpreemptoff=1
@@ -31,6 +33,21 @@ for prop in $PROPS; do
     rc=1
   else
     echo "deterministic property=$prop: $((P*3)) processes x $N seeds identical"
+  fi
+done
+for prop in $PROPS; do
+  GOMAXPROCS=1 VERIF_MODE=hashes VERIF_REPLAYCHECK=1 VERIF_PROP=$prop VERIF_N=$N VERIF_SEED=${VERIF_SEED:-7} "$S/sim.test" -test.run '^TestWorker$' > "$S/r.$prop" 2>&1 &
+done
+wait
+for prop in $PROPS; do
+  m=$(grep -c REPLAY-MISMATCH "$S/r.$prop")
+  lines=$(grep -c "^$prop " "$S/r.$prop")
+  if [ "$m" != 0 ] || [ "$lines" -lt "$N" ]; then
+    echo "REPLAY-INFIDELITY property=$prop: $m of $lines runs differ when re-executed from their recorded tape"
+    grep REPLAY-MISMATCH "$S/r.$prop" | head -3
+    rc=1
+  else
+    echo "replay-faithful property=$prop: $lines runs re-executed from their tapes, hashes identical"
   fi
 done
 exit $rc
